@@ -270,7 +270,7 @@ Qed.
 
 Lemma pres_d_tail s : Inv s -> cp (C s) = DTail -> Inv (d_tail s).
 Proof.
-  intros Hi Ecp. pose proof (I_c _ _ Hi) as Hc. unfold cinv in Hc. rewrite Ecp in Hc. destruct Hc as [[D K] H].
+  intros Hi Ecp. pose proof (I_c _ _ Hi) as Hc. unfold cinv in Hc. rewrite Ecp in Hc. destruct Hc as [[D [K KH]] H].
   destruct (drop_idle s Hi D) as [_ TF]. destruct (I_ptr _ _ Hi) as [T1 T2].
   pose proof (I_mon _ _ Hi) as MON. unfold d_tail. conly s Ecp.
   - apply (I_dr _ _ Hi).
@@ -281,7 +281,7 @@ Qed.
 Lemma pres_d_next s : Inv s -> cp (C s) = DNext -> Inv (d_next s).
 Proof.
   intros Hi Ecp. assert (Hp : pcls (cp (C s)) <= 2) by (rewrite Ecp; cbn; lia).
-  pose proof (I_c _ _ Hi) as Hc. unfold cinv in Hc. rewrite Ecp in Hc. destruct Hc as [[D K] H].
+  pose proof (I_c _ _ Hi) as Hc. unfold cinv in Hc. rewrite Ecp in Hc. destruct Hc as [[D [K KH]] H].
   destruct (live_tail' s Hi Hp) as [LT LT1]. destruct (I_al _ _ Hi _ LT) as (AL1 & AL2 & AL3). destruct (I_al _ _ Hi _ LT1) as (_ & _ & NZ).
   destruct (I_ptr _ _ Hi) as [T1 T2]. pose proof (I_ch _ _ Hi _ LT (le_n _)) as CH.
   pose proof (I_mon _ _ Hi) as MON. unfold d_next. cbv zeta. unfold blk_at. rewrite H, T1. unfold blkof, blk_at in CH. rewrite CH.
